@@ -549,13 +549,9 @@ func (c *Ctx) ruleB1() {
 					if !ok || (bo.Op != token.EQL && bo.Op != token.NEQ) {
 						return
 					}
-					evSide := false
-					for _, o := range []ssa.Value{bo.X, bo.Y} {
-						if de[o] && strings.Contains(nf(o), "Address") {
-							evSide = true
-						}
-					}
-					if !evSide {
+					evSide := de[bo.X] || de[bo.Y]
+					both := nf(bo.X) + " " + nf(bo.Y)
+					if !evSide || !(strings.Contains(both, "Address") || strings.Contains(both, "address") || strings.Contains(both, ".id")) {
 						return
 					}
 					for _, r := range *bo.Referrers() {
